@@ -1,8 +1,10 @@
 #!/bin/bash
+# calibration of the thorough tier (evidence untouched): ./tools/run_thorough.sh [properties...]
 cd /verif
-for p in C13 C14 C09 C15 C04 C03 C01 C05 C02 C18 C11 C16; do
+PROPS=${@:-C13 C14 C09 C15 C04 C03 C01 C05 C02 C18 C11 C16}
+for p in $PROPS; do
   echo "=== $p $(date +%H:%M:%S)"
-  ./check $p --tier thorough --no-evidence 2>&1 | grep -v "^ *[0-9]*: \|rayon\|closure" | grep "^\s*\[\|->\|^OK\|^INCONC\|^VIOL\|^KNOWN" | grep -v "PASS" | cut -c1-220
+  python3 -u ./check $p --tier thorough --no-evidence 2>&1 | grep "^\s*\[\|->\|^OK\|^INCONC\|^VIOL\|^KNOWN" | grep -v "PASS" | cut -c1-220
   echo "rc=${PIPESTATUS[0]}"
 done
 echo "=== done $(date +%H:%M:%S)"
